@@ -1,3 +1,5 @@
+#[cfg(feature = "flate2")]
+use std::io::BufRead;
 use std::io::{self, Read};
 
 #[cfg(feature = "flate2")]
@@ -19,7 +21,57 @@ pub enum CompressedReader {
     #[cfg(feature = "flate2")]
     Deflate(DeflateDecoder<BodyReader>),
     #[cfg(feature = "flate2")]
-    Gzip(GzDecoder<BodyReader>),
+    Gzip(GzDecoder<NotBefore<BodyReader>>),
+}
+
+/// Keeps a decoder's constructor away from the connection.
+///
+/// `GzDecoder::new` starts to read the gzip header at once, and when that read times out it keeps the
+/// fact to itself and simply goes on with the header on the next read: `send()` would sit through a whole
+/// read timeout for a body it has not been asked for yet, and the caller's first read would then get a
+/// second one - a peer could be silent for almost twice the read timeout without anybody being told.
+/// The first time the decoder asks for input it is told to come back later; from then on every request
+/// goes to the connection and every error reaches the caller.
+#[cfg(feature = "flate2")]
+#[derive(Debug)]
+pub struct NotBefore<R> {
+    inner: R,
+    asked: bool,
+}
+
+#[cfg(feature = "flate2")]
+impl<R> NotBefore<R> {
+    fn new(inner: R) -> NotBefore<R> {
+        NotBefore { inner, asked: false }
+    }
+
+    fn get_mut(&mut self) -> &mut R {
+        &mut self.inner
+    }
+}
+
+#[cfg(feature = "flate2")]
+impl<R: BufRead> Read for NotBefore<R> {
+    fn read(&mut self, buf: &mut [u8]) -> io::Result<usize> {
+        if !std::mem::replace(&mut self.asked, true) {
+            return Err(io::ErrorKind::WouldBlock.into());
+        }
+        self.inner.read(buf)
+    }
+}
+
+#[cfg(feature = "flate2")]
+impl<R: BufRead> BufRead for NotBefore<R> {
+    fn fill_buf(&mut self) -> io::Result<&[u8]> {
+        if !std::mem::replace(&mut self.asked, true) {
+            return Err(io::ErrorKind::WouldBlock.into());
+        }
+        self.inner.fill_buf()
+    }
+
+    fn consume(&mut self, amt: usize) {
+        self.inner.consume(amt)
+    }
 }
 
 #[cfg(feature = "flate2")]
@@ -56,7 +108,10 @@ impl CompressedReader {
         if request.method() != Method::HEAD {
             if have_encoding(headers, "gzip") {
                 debug!("creating gzip decoder");
-                return Ok(CompressedReader::Gzip(GzDecoder::new(reader)));
+                let mut decoder = GzDecoder::new(NotBefore::new(reader));
+                // (whether or not the constructor asked)
+                decoder.get_mut().asked = true;
+                return Ok(CompressedReader::Gzip(decoder));
             }
 
             if have_encoding(headers, "deflate") {
@@ -110,7 +165,7 @@ impl Read for CompressedReader {
             CompressedReader::Gzip(s) => {
                 let n = s.read(buf)?;
                 if n == 0 && !buf.is_empty() {
-                    finish_frame(s.get_mut())?;
+                    finish_frame(s.get_mut().get_mut())?;
                 }
                 Ok(n)
             }
